@@ -91,7 +91,7 @@ def run_check(pid, tier, replay=None):
     try:
         if not replay:
             import shutil
-            shutil.rmtree(os.path.join(core.WORK, "replays", pid), ignore_errors=True)
+            shutil.rmtree(os.path.join(core.WORK, "replays" + os.environ.get("VERIF_REPLAY_SUFFIX", ""), pid), ignore_errors=True)
         if replay:
             with open(replay) as f:
                 payload = json.load(f)
